@@ -8,7 +8,7 @@ import subprocess
 import sys
 import time
 
-from . import catalog, emit
+from . import catalog, emit, emit_const
 
 VERIF = os.path.dirname(os.path.dirname(os.path.abspath(__file__)))
 REPO = os.environ.get("VERIF_REPO", "/repo")
@@ -140,7 +140,7 @@ def shard_plan(cases, n_core, n_seed):
     return plans
 
 
-GROUP_SHARDS = {"single": (14, 4), "array": (8, 2), "nc": (6, 2), "enumf": (4, 2), "custom": (8, 2), "mixed": (6, 3), "base": (4, 2), "bld": (6, 2), "dbgf": (4, 2), "probe11": (2, 1)}
+GROUP_SHARDS = {"single": (14, 4), "array": (8, 2), "nc": (6, 2), "enumf": (4, 2), "custom": (8, 2), "mixed": (6, 3), "base": (4, 2), "bld": (6, 2), "dbgf": (4, 2), "probe11": (2, 1), "constf": (10, 4)}
 
 
 class Workspace:
@@ -163,7 +163,9 @@ class Workspace:
         members = []
         existing = self._existing_members()
         for g in groups:
-            cases = [c for c in catalog.family(g, self.tier, self.seed) if c["id"] not in drop]
+            is_const = g == "constf"
+            src_cases = emit_const.const_cases(self.tier, self.seed) if is_const else catalog.family(g, self.tier, self.seed)
+            cases = [c for c in src_cases if c["id"] not in drop]
             self.cases[g] = cases
             n_core, n_seed = GROUP_SHARDS[g]
             if self.tier == "thorough":
@@ -173,7 +175,10 @@ class Workspace:
             for shard, cs in plan:
                 name = self.crate_name(g, shard)
                 names.append(name)
-                text, sections = emit.shard_source(cs)
+                if is_const:
+                    text, sections = emit_const.shard_source(cs, nk=4 if self.tier == "quick" else 16, seed=self.seed)
+                else:
+                    text, sections = emit.shard_source(cs)
                 self.sections[name] = sections
                 d = os.path.join(self.root, name)
                 write_if_changed(os.path.join(d, "src", "lib.rs"), text)
@@ -182,7 +187,10 @@ class Workspace:
             d = os.path.join(self.root, rn)
             deps = "\n".join('%s = { path = "../%s" }' % (n, n) for n in names)
             write_if_changed(os.path.join(d, "Cargo.toml"), '[package]\nname = "%s"\nversion = "0.1.0"\nedition = "2021"\n\n[dependencies]\nvrt = { path = "%s" }\n%s\n' % (rn, VRT, deps))
-            main = "fn main() {\n    let mut r = vrt::runner::Registry { subjects: Vec::new(), enums: Vec::new() };\n" + "".join("    %s::register(&mut r);\n" % n for n in names) + "    vrt::runner::main(r);\n}\n"
+            if is_const:
+                main = "fn main() {\n    let mut r: Vec<fn(&mut vrt::cst::Report)> = Vec::new();\n" + "".join("    %s::register(&mut r);\n" % n for n in names) + "    vrt::cst::main(r);\n}\n"
+            else:
+                main = "fn main() {\n    let mut r = vrt::runner::Registry { subjects: Vec::new(), enums: Vec::new() };\n" + "".join("    %s::register(&mut r);\n" % n for n in names) + "    vrt::runner::main(r);\n}\n"
             write_if_changed(os.path.join(d, "src", "main.rs"), main)
             # remove stale shard crates of this group
             for old in existing:
